@@ -8,6 +8,7 @@ from __future__ import unicode_literals
 
 from django_evolution.compat import six
 from django_evolution.compat.models import get_model_name
+from django_evolution.errors import EvolutionException
 from django_evolution.models import Evolution
 from django_evolution.support import supports_migrations
 from django_evolution.utils.apps import get_app_label
@@ -33,6 +34,28 @@ class NodeNotFoundError(Exception):
         super(NodeNotFoundError, self).__init__(
             'A graph node with key "%s" was not found.'
             % key)
+
+
+class CircularDependencyError(EvolutionException):
+    """A dependency cycle was found in the graph.
+
+    The requested ordering cannot be satisfied.
+    """
+
+    def __init__(self, keys):
+        """Initialize the error.
+
+        Args:
+            keys (list of unicode):
+                Keys of nodes that are part of (or only reachable through)
+                a dependency cycle.
+        """
+        super(CircularDependencyError, self).__init__(
+            'The following evolutions, migrations or models depend on each '
+            'other in a cycle, and cannot be ordered: %s'
+            % ', '.join(sorted('%s' % (key,) for key in keys)))
+
+        self.keys = keys
 
 
 class Node(object):
@@ -313,12 +336,30 @@ class DependencyGraph(object):
                         #
                         # We'll mark that we've processed this, so we don't
                         # re-scan the dependencies again.
+                        for dep in node.dependencies:
+                            if dep is node or (dep in processed and
+                                               dep not in visited):
+                                # The dependency is still being worked on
+                                # further up the stack, so this leads back
+                                # into it.
+                                raise CircularDependencyError(
+                                    [node.key, dep.key])
+
                         stack.append(node)
                         stack += sorted(node.dependencies,
                                         key=lambda dep: dep.insert_index,
                                         reverse=True)
 
                         processed.add(node)
+
+        if len(result) != len(self._nodes):
+            # Nodes that no leaf node leads to can only be part of (or
+            # required by) a dependency cycle.
+            raise CircularDependencyError([
+                node.key
+                for node in six.itervalues(self._nodes)
+                if node not in result_set
+            ])
 
         return result
 
